@@ -158,10 +158,18 @@ pub enum PendingCompletion {
     Return(Guarded),
     /// Rethrow this exception after finally completes
     Throw(Guarded),
-    /// Break to target after finally completes
-    Break { target: usize, try_depth: u8 },
-    /// Continue to target after finally completes
-    Continue { target: usize, try_depth: u8 },
+    /// Break to target after finally completes (scope_len: block scope depth at the target)
+    Break {
+        target: usize,
+        try_depth: u8,
+        scope_len: usize,
+    },
+    /// Continue to target after finally completes (scope_len: block scope depth at the target)
+    Continue {
+        target: usize,
+        try_depth: u8,
+        scope_len: usize,
+    },
 }
 
 impl PendingCompletion {
@@ -180,13 +188,23 @@ impl PendingCompletion {
         match self {
             PendingCompletion::Return(g) => PendingCompletion::Return(copy_value(g)),
             PendingCompletion::Throw(g) => PendingCompletion::Throw(copy_value(g)),
-            PendingCompletion::Break { target, try_depth } => PendingCompletion::Break {
+            PendingCompletion::Break {
+                target,
+                try_depth,
+                scope_len,
+            } => PendingCompletion::Break {
                 target: *target,
                 try_depth: *try_depth,
+                scope_len: *scope_len,
             },
-            PendingCompletion::Continue { target, try_depth } => PendingCompletion::Continue {
+            PendingCompletion::Continue {
+                target,
+                try_depth,
+                scope_len,
+            } => PendingCompletion::Continue {
                 target: *target,
                 try_depth: *try_depth,
+                scope_len: *scope_len,
             },
         }
     }
@@ -1668,6 +1686,16 @@ impl BytecodeVM {
         }
     }
 
+    /// Pop the block scopes entered above `depth`, restoring the environment of each.
+    /// This is like executing PopScope for each scope that was entered.
+    fn unwind_scopes_to(&mut self, interp: &mut Interpreter, depth: usize) {
+        while self.saved_env_stack.len() > depth {
+            if let Some(saved_env) = self.saved_env_stack.pop() {
+                interp.pop_scope(saved_env);
+            }
+        }
+    }
+
     /// Find an exception handler for the current position.
     /// Returns `Some((handler_ip, is_catch))` where:
     /// - `is_catch = true`: handler_ip is a catch block (store error in exception_value)
@@ -2503,10 +2531,25 @@ impl BytecodeVM {
             }
 
             // NOTE: review
-            Op::Break { target, try_depth } => self.execute_break(target as usize, try_depth),
+            Op::Break {
+                target,
+                try_depth,
+                scopes,
+            } => {
+                // The target sits `scopes` block scopes further out than this instruction
+                let scope_len = self.saved_env_stack.len().saturating_sub(scopes as usize);
+                self.execute_break(target as usize, try_depth, scope_len, interp)
+            }
 
             // NOTE: review
-            Op::Continue { target, try_depth } => self.execute_continue(target as usize, try_depth),
+            Op::Continue {
+                target,
+                try_depth,
+                scopes,
+            } => {
+                let scope_len = self.saved_env_stack.len().saturating_sub(scopes as usize);
+                self.execute_continue(target as usize, try_depth, scope_len, interp)
+            }
 
             // ═══════════════════════════════════════════════════════════════════════════
             // Variable Access
@@ -3285,13 +3328,21 @@ impl BytecodeVM {
                             // Re-throw the exception after finally
                             return Err(JsError::ThrownValue { guarded });
                         }
-                        PendingCompletion::Break { target, try_depth } => {
+                        PendingCompletion::Break {
+                            target,
+                            try_depth,
+                            scope_len,
+                        } => {
                             // Continue with the break (recursively handles nested finally blocks)
-                            return self.execute_break(target, try_depth);
+                            return self.execute_break(target, try_depth, scope_len, interp);
                         }
-                        PendingCompletion::Continue { target, try_depth } => {
+                        PendingCompletion::Continue {
+                            target,
+                            try_depth,
+                            scope_len,
+                        } => {
                             // Continue with the continue (recursively handles nested finally blocks)
-                            return self.execute_continue(target, try_depth);
+                            return self.execute_continue(target, try_depth, scope_len, interp);
                         }
                     }
                 }
@@ -6027,13 +6078,17 @@ impl BytecodeVM {
             // Pop the try handler (we're exiting this try block)
             self.try_stack.truncate(handler_idx);
 
+            // Leave the scopes entered inside the try block
+            self.unwind_scopes_to(interp, handler.scope_depth);
+
             // Jump to the finally block
             self.ip = handler.finally_ip;
 
             return Ok(OpResult::Continue);
         }
 
-        // No finally block, do normal return
+        // No finally block, do normal return: leave every block scope of this function
+        self.unwind_scopes_to(interp, 0);
         if let Some(frame) = self.call_stack.pop() {
             self.ip = frame.return_ip;
             self.chunk = frame.return_chunk;
@@ -6053,7 +6108,13 @@ impl BytecodeVM {
 
     /// Execute a break, running any pending finally blocks first
     // NOTE: review
-    fn execute_break(&mut self, target: usize, try_depth: u8) -> Result<OpResult, JsError> {
+    fn execute_break(
+        &mut self,
+        target: usize,
+        try_depth: u8,
+        scope_len: usize,
+        interp: &mut Interpreter,
+    ) -> Result<OpResult, JsError> {
         // Check if there's a try handler with a finally block between us and the target
         let target_try_depth = try_depth as usize;
 
@@ -6074,10 +6135,18 @@ impl BytecodeVM {
                 .ok_or_else(|| JsError::internal_error("Missing try handler"))?;
 
             // Save the pending break
-            self.pending_completion = Some(PendingCompletion::Break { target, try_depth });
+            self.pending_completion = Some(PendingCompletion::Break {
+                target,
+                try_depth,
+                scope_len,
+            });
 
             // Pop the try handler (we're exiting this try block)
             self.try_stack.truncate(handler_idx);
+
+            // Leave the scopes entered inside the try block; the finally block runs
+            // in the scope of the try statement
+            self.unwind_scopes_to(interp, handler.scope_depth.max(scope_len));
 
             // Jump to the finally block
             self.ip = handler.finally_ip;
@@ -6088,13 +6157,21 @@ impl BytecodeVM {
         // No finally block, do normal break (just jump)
         // Also pop try handlers down to the target level
         self.try_stack.truncate(target_try_depth);
+        // Leave the block scopes between here and the target
+        self.unwind_scopes_to(interp, scope_len);
         self.ip = target;
         Ok(OpResult::Continue)
     }
 
     /// Execute a continue, running any pending finally blocks first
     // NOTE: review
-    fn execute_continue(&mut self, target: usize, try_depth: u8) -> Result<OpResult, JsError> {
+    fn execute_continue(
+        &mut self,
+        target: usize,
+        try_depth: u8,
+        scope_len: usize,
+        interp: &mut Interpreter,
+    ) -> Result<OpResult, JsError> {
         // Check if there's a try handler with a finally block between us and the target
         let target_try_depth = try_depth as usize;
 
@@ -6115,10 +6192,17 @@ impl BytecodeVM {
                 .ok_or_else(|| JsError::internal_error("Missing try handler"))?;
 
             // Save the pending continue
-            self.pending_completion = Some(PendingCompletion::Continue { target, try_depth });
+            self.pending_completion = Some(PendingCompletion::Continue {
+                target,
+                try_depth,
+                scope_len,
+            });
 
             // Pop the try handler (we're exiting this try block)
             self.try_stack.truncate(handler_idx);
+
+            // Leave the scopes entered inside the try block
+            self.unwind_scopes_to(interp, handler.scope_depth.max(scope_len));
 
             // Jump to the finally block
             self.ip = handler.finally_ip;
@@ -6129,6 +6213,8 @@ impl BytecodeVM {
         // No finally block, do normal continue (just jump)
         // Also pop try handlers down to the target level
         self.try_stack.truncate(target_try_depth);
+        // Leave the block scopes between here and the target
+        self.unwind_scopes_to(interp, scope_len);
         self.ip = target;
         Ok(OpResult::Continue)
     }
